@@ -120,30 +120,41 @@ fn main() {
         println!("replay: {} violation(s)", n);
         std::process::exit(if n > 0 { 1 } else { 0 });
     }
+    // A bug in the harness itself must never look like a verdict about pyxis.
+    let ran = std::panic::catch_unwind(std::panic::AssertUnwindSafe(|| {
     match prop {
-        "C01" | "C02" => layout_props::run(&mut ctx, prop),
-        "C03" => c03::run(&mut ctx),
-        "C04" => exec_props::run(&mut ctx, "C04"),
-        "C05" => exec_props::run(&mut ctx, "C05"),
-        "C06" => exec_props::run(&mut ctx, "C06"),
-        "C07" => exec_props::run(&mut ctx, "C07"),
-        "C15" => exec_props::run(&mut ctx, "C15"),
-        "C08" => c08::run(&mut ctx),
-        "C09" => c09::run(&mut ctx),
-        "C10" => resolve_props::run_c10(&mut ctx),
-        "C11" => resolve_props::run_c11(&mut ctx),
-        "C12" => c12::run(&mut ctx),
-        "C13" => c13::run(&mut ctx),
-        "C14" => static_props::run_c14(&mut ctx),
-        "C16" => static_props::run_c16(&mut ctx),
-        "C17" => static_props::run_c17(&mut ctx),
-        "C18" => c18::run(&mut ctx),
-        "C19" => meta_props::run_c19(&mut ctx),
-        "C20" => meta_props::run_c20(&mut ctx),
-        _ => {
-            eprintln!("unknown property {prop}");
-            std::process::exit(2);
+            "C01" | "C02" => layout_props::run(&mut ctx, prop),
+            "C03" => c03::run(&mut ctx),
+            "C04" => exec_props::run(&mut ctx, "C04"),
+            "C05" => exec_props::run(&mut ctx, "C05"),
+            "C06" => exec_props::run(&mut ctx, "C06"),
+            "C07" => exec_props::run(&mut ctx, "C07"),
+            "C15" => exec_props::run(&mut ctx, "C15"),
+            "C08" => c08::run(&mut ctx),
+            "C09" => c09::run(&mut ctx),
+            "C10" => resolve_props::run_c10(&mut ctx),
+            "C11" => resolve_props::run_c11(&mut ctx),
+            "C12" => c12::run(&mut ctx),
+            "C13" => c13::run(&mut ctx),
+            "C14" => static_props::run_c14(&mut ctx),
+            "C16" => static_props::run_c16(&mut ctx),
+            "C17" => static_props::run_c17(&mut ctx),
+            "C18" => c18::run(&mut ctx),
+            "C19" => meta_props::run_c19(&mut ctx),
+            "C20" => meta_props::run_c20(&mut ctx),
+            _ => {
+                eprintln!("unknown property {prop}");
+                std::process::exit(2);
+            }
         }
+    }));
+    if let Err(e) = ran {
+        let msg = e
+            .downcast_ref::<String>()
+            .cloned()
+            .or_else(|| e.downcast_ref::<&str>().map(|s| s.to_string()))
+            .unwrap_or_else(|| "panic".into());
+        ctx.inconclusive(format!("harness panicked: {}", verdict::one_line(&msg, 200)));
     }
     std::process::exit(ctx.finish());
 }
